@@ -7,6 +7,19 @@ from pathlib import Path
 VERIF = Path(__file__).resolve().parents[2]
 
 
+def _clean(x):
+    """strict JSON: non-finite floats become strings"""
+    import math
+
+    if isinstance(x, float) and not math.isfinite(x):
+        return str(x)
+    if isinstance(x, dict):
+        return {str(k): _clean(v) for k, v in x.items()}
+    if isinstance(x, (list, tuple)):
+        return [_clean(v) for v in x]
+    return x
+
+
 def write(prop, tier, seed, coverage, assumptions, wall_s, violations, level="proof"):
     d = {
         "property_id": prop,
@@ -18,7 +31,10 @@ def write(prop, tier, seed, coverage, assumptions, wall_s, violations, level="pr
         "wall_s": round(float(wall_s), 2),
         "violations": int(violations),
     }
-    p = VERIF / "evidence" / f"{prop}.json"
-    p.parent.mkdir(exist_ok=True)
-    p.write_text(json.dumps(d, indent=1, default=str) + "\n")
+    import os
+
+    # a run against a patched scratch copy of the repository (LADIM_REPO) must not overwrite the evidence
+    p = (VERIF / ".work" / "scratch_evidence" if os.environ.get("LADIM_REPO") else VERIF / "evidence") / f"{prop}.json"
+    p.parent.mkdir(parents=True, exist_ok=True)
+    p.write_text(json.dumps(_clean(json.loads(json.dumps(d, default=str))), indent=1, allow_nan=False) + "\n")
     return p
